@@ -10,7 +10,7 @@ import os
 from engine import rprop, replay as rp
 from engine.rx import extract, rustre, ast as A
 from engine.common import log
-from refgrammar import w3c, rfc3987
+from refgrammar import w3c, rfc3987, bcp47
 from props import _rt
 
 # Reference gaps: (obligation, key, class regex in Rust-regex syntax, representatives, what)
@@ -43,7 +43,9 @@ def run(ctx):
                       _rt.confirmer(rep, [("parse", "ttl_bnode")]), "Trusted::bnode_id() cannot panic / yield an invalid BnodeId"),
             rprop.Obl("nt_bnode_label_accepted", "subset", w3c.NT_BNODE_LABEL, asts["BNODE_ID"], "N-Triples BLANK_NODE_LABEL (after '_:')", "L(BNODE_ID)",
                       _rt.confirmer(rep, [("parse", "nt_bnode")]), "same, for the N-Triples/N-Quads parsers"),
-            rprop.Obl("langtag_accepted", "subset", w3c.LANGTAG, asts["LANG_TAG"], "LANGTAG (after '@')", "L(LANG_TAG)",
+            # Rio validates language tags against BCP47 well-formedness before yielding them, so the tokens that reach the
+            # validator are LANGTAG ∩ BCP47 = BCP47 (C03 proves BCP47 ⊆ LANGTAG); non-BCP47 LANGTAGs are guarded below.
+            rprop.Obl("langtag_accepted", "subset", bcp47.Language_Tag, asts["LANG_TAG"], "well-formed BCP47 Language-Tag (what Rio yields after '@')", "L(LANG_TAG)",
                       _rt.confirmer(rep, [("parse", "ttl_lang"), ("parse", "nt_lang")]), "Trusted::language_tag() (always validated) cannot panic"),
             rprop.Obl("varname_accepted", "subset", w3c.VARNAME, asts["VARNAME"], "SPARQL VARNAME", "L(VARNAME)",
                       _rt.confirmer(rep, [("parse", "gtrig_var")]), "Trusted::variable() cannot panic"),
@@ -61,11 +63,17 @@ def run(ctx):
             kind = "ttl_bnode" if obl.startswith("ttl") else "nt_bnode"
             for s in reps:
                 guard_reqs.append((obl, key, ("parse", kind, s)))
+        # guard for the BCP47 assumption: LANGTAG tokens that are not well-formed BCP47 must still be rejected by the real parsers
+        for s_ in ("a-0", "abcdefghi", "en-a", "a1"):
+            guard_reqs.append(("langtag_accepted", "assume:rio-yields-only-bcp47", ("parse", "ttl_lang", s_)))
+            guard_reqs.append(("langtag_accepted", "assume:rio-yields-only-bcp47", ("parse", "nt_lang", s_)))
         ans = _rt.rt_eval(rep, [g[2] for g in guard_reqs])
         for (obl, key, req), a in zip(guard_reqs, ans):
             if a.startswith("VIOLATION"):
                 wp = ctx.write_witness("guard-%s" % req[1], {"property": "C08", "mode": "parse", "kind": req[1], "string": req[2], "detail": a})
                 ctx.violation(wp, "reference-gap guard: the real parser now yields %r (%s): %s" % (req[2], key, a[:300]))
+            elif not a.startswith("n/a") and key.startswith("assume:"):
+                ctx.inconc("assumption %s does not hold: the real parser yields %r (%s)" % (key, req[2], a))
             elif not a.startswith("n/a"):
                 # parser accepts it and validator is fine with it: then the gap class no longer describes the validator; do not assume it away
                 ctx.inconc("reference-gap guard: %r (%s) is now accepted end-to-end (%s); gap class is stale" % (req[2], key, a))
